@@ -14,22 +14,24 @@ structure Le (s s' : St) : Prop where
   val : s'.σ.val = s.σ.val
   cs : ∃ new, s'.cs = s.cs ++ new
   diags : ∃ more, s'.diags = s.diags ++ more
+  out : s.outside = true → s'.outside = true
 
-theorem Le.refl (s : St) : Le s s := ⟨rfl, rfl, ⟨[], by simp⟩, ⟨[], by simp⟩⟩
+theorem Le.refl (s : St) : Le s s := ⟨rfl, rfl, ⟨[], by simp⟩, ⟨[], by simp⟩, id⟩
 
 theorem Le.trans {a b c : St} (h1 : Le a b) (h2 : Le b c) : Le a c := by
   obtain ⟨n1, e1⟩ := h1.cs; obtain ⟨n2, e2⟩ := h2.cs
   obtain ⟨m1, d1⟩ := h1.diags; obtain ⟨m2, d2⟩ := h2.diags
   exact ⟨h2.rep.trans h1.rep, h2.val.trans h1.val, ⟨n1 ++ n2, by rw [e2, e1, List.append_assoc]⟩,
-    ⟨m1 ++ m2, by rw [d2, d1, List.append_assoc]⟩⟩
+    ⟨m1 ++ m2, by rw [d2, d1, List.append_assoc]⟩, fun h => h2.out (h1.out h)⟩
 
-theorem le_push (s : St) (c : Constraint) : Le s (s.push c) := ⟨rfl, rfl, ⟨[c], rfl⟩, ⟨[], by simp [St.push]⟩⟩
-theorem le_diag (s : St) (d : IDiag) : Le s (s.diag d) := ⟨rfl, rfl, ⟨[], by simp [St.diag]⟩, ⟨[d], rfl⟩⟩
+theorem le_push (s : St) (c : Constraint) : Le s (s.push c) := ⟨rfl, rfl, ⟨[c], rfl⟩, ⟨[], by simp [St.push]⟩, id⟩
+theorem le_diag (s : St) (d : IDiag) : Le s (s.diag d) := ⟨rfl, rfl, ⟨[], by simp [St.diag]⟩, ⟨[d], rfl⟩, id⟩
 theorem le_record (s : St) (i : Nat) (t : Ty) : Le s (s.record i t) :=
-  ⟨rfl, rfl, ⟨[], by simp [St.record]⟩, ⟨[], by simp [St.record]⟩⟩
-theorem le_fresh (s : St) : Le s s.fresh.2 := ⟨rfl, rfl, ⟨[], by simp [St.fresh]⟩, ⟨[], by simp [St.fresh]⟩⟩
+  ⟨rfl, rfl, ⟨[], by simp [St.record]⟩, ⟨[], by simp [St.record]⟩, id⟩
+theorem le_mark (s : St) : Le s s.mark := ⟨rfl, rfl, ⟨[], by simp [St.mark]⟩, ⟨[], by simp [St.mark]⟩, fun _ => rfl⟩
+theorem le_fresh (s : St) : Le s s.fresh.2 := ⟨rfl, rfl, ⟨[], by simp [St.fresh]⟩, ⟨[], by simp [St.fresh]⟩, id⟩
 theorem le_inst (s : St) (t : Ty) : Le s (s.inst t).2 :=
-  ⟨(instTy_same s.σ [] t).1, (instTy_same s.σ [] t).2, ⟨[], by simp [St.inst]⟩, ⟨[], by simp [St.inst]⟩⟩
+  ⟨(instTy_same s.σ [] t).1, (instTy_same s.σ [] t).2, ⟨[], by simp [St.inst]⟩, ⟨[], by simp [St.inst]⟩, id⟩
 theorem le_errExpr (s : St) : Le s (errExpr s).2 := le_fresh s
 
 theorem le_popScope (Γ : Scopes) (s : St) : Le s (popScope Γ s).2 := by
